@@ -391,6 +391,12 @@ def registration(prog, chk):
             if not ok and (_withdrawn_when_deferred(prog, body) or (owner_ is not body and _withdrawn_when_deferred(prog, owner_))):
                 chk.ok("A13.registration", key, where, "the element is registered provisionally (so that it is a <reuse> target at once); when its evaluation fails the registration is withdrawn before the element is queued for retry, so nothing resolves against the unresolved element")
                 continue
+            n_eval_ = len(body.call_sites(lambda c: c.path in EVALS or (c.decl_path == "svgdx::transform::EventGen::generate_events" or c.path.endswith(" as svgdx::transform::EventGen>::generate_events"))))
+            if not ok and not n_eval_ and any(cb_.call_sites(lambda c: c.path in EVALS or c.decl_path == "svgdx::transform::EventGen::generate_events" or c.path.endswith(" as svgdx::transform::EventGen>::generate_events")) for cb_ in prog.closures_of(body)):
+                # the evaluation whose success licenses the registration runs in a closure of this function (a scope guard
+                # runs it): which continuation is "it succeeded" is not read here
+                chk.undecided("A13.registration", key, where, f"{body.short} evaluates the element inside a closure; that update_element follows its success is not traced through the closure's caller")
+                continue
             if ok:
                 chk.ok("A13.registration", key, where, f"the element is registered only after its successful {how}()")
             else:
